@@ -112,7 +112,7 @@ def run(ctx):
                 "region duplication, every length/count/index field set to 0,1,max-1,max,actual+-1, bytes >= 0x80 in configuration text; arbitrary strings "
                 "of length 0-2048; fed (a) to every decoder (outcome compared with the model and classified: value+suffix / parse error / incomplete / "
                 "unicode-only-with-non-ASCII) and (b) as datagrams to a live ServiceDiscoveryProtocol holding a found service and a subscription, and to "
-                "a live SimpleService: the call must return, and for non-SD-notification datagrams no listener call, no transmission and no change of "
+                "a live SimpleService (also packed frames: several messages in one datagram, SD notifications with configuration options in second or third place): the call must return, and for non-SD-notification datagrams no listener call, no transmission and no change of "
                 "found_services / subscriptions / session storage; non-trivial = distinct input")
     ctx.assumptions = ["exception types outside the model's enum map to a code the model never yields, so any foreign exception is a reported difference (differential, not proved)"]
     cases, impl, descr = [], [], []
@@ -214,6 +214,31 @@ def run(ctx):
                 if r.random() < 0.2:
                     data, _ = gen.mutate(r, data, fields=[(4, 4)])
             live.append((data, kind))
+        # PACKED frames: several SOME/IP messages in one datagram, an SD notification with configuration / endpoint options -
+        # valid or corrupted - in second or third place behind a foreign message, an empty SD message or another SD message
+        import random
+        r2 = random.Random(ctx.seed * 7919 + 3)       # a stream of its own: the datagrams above stay what they were
+        for k in range(60 if quick else 2000):
+            parts = []
+            for j in range(r2.randint(2, 3)):
+                c = r2.random()
+                if j == 0 and c < 0.4:
+                    parts.append(bytes(gen.message(r2, maxlen=12).build()))
+                    continue
+                if c < 0.5:
+                    cfgo = H.SOMEIPSDConfigOption(configs=tuple((gen.cfg_str(r2, 6, nonempty=True), r2.choice([None, "", "v", "a=b"])) for _ in range(r2.randint(0, 3))))
+                    ep = H.IPv4EndpointOption(address=__import__("ipaddress").IPv4Address("10.0.0.5"), l4proto=H.L4Protocols.UDP, port=4000)
+                    e = r2.choice([C.Service(0x2222, 7, 1, 3, options_1=(cfgo,)).create_offer_entry(3),
+                                   H.SOMEIPSDEntry(H.SOMEIPSDEntryType.Subscribe, 0x1111, 1, 1, 3, 5, options_1=(ep, cfgo))])
+                    payload = bytes(H.SOMEIPSDHeader(entries=(e,)).assign_option_indexes().build())
+                else:
+                    payload = gen.valid_sd_payload(r2)
+                if r2.random() < 0.5:
+                    payload, _ = gen.mutate(r2, payload, fields=gen.sd_fields(payload))
+                if r2.random() < 0.3 and len(payload) > 30:
+                    i = r2.randrange(20, len(payload)); payload = payload[:i] + bytes([r2.randint(0x80, 0xFF)]) + payload[i + 1:]
+                parts.append(bytes(H.SOMEIPHeader(0xFFFF, 0x8100, 0, r2.randint(1, 9), 1, H.SOMEIPMessageType.NOTIFICATION, payload=payload).build()))
+            live.append((b"".join(parts), "packed-frame"))
         # the oracle for "is this a decodable SD notification" is the MODEL's decoder (proved sound and complete for the
         # format), not pysomeip's own parser: a datagram the implementation wrongly accepts is then still judged as foreign
         m1 = ctx.model.batch([(102, d) for d, _ in live])
